@@ -587,6 +587,41 @@ def r4(ctx):
             ctx.ok(key, f"`{unparse(a)[:50]}` not a syntactically one-shot iterator ({why or 'unclassified'})", nontrivial=False)
 
 
+# ------------------------------------------------------------------ R5: the result is a function of BOTH inputs
+# {(function key, parameter): reason} -- parameters that are documented as ignored
+UNUSED_BY_CONTRACT = {
+    (f"{TOPO}::sort", "deterministic_order"):
+        "documented in the docstring as no longer used (kept for backwards compatibility with Alembic)",
+}
+
+
+@R.rule("C19-R5", floor=7, template="T-FLOW",
+        desc="every input parameter of the public functions of util/topological.py (items and dependency pairs) is "
+             "read by the function: a result that is computed without reading `allitems` cannot be restricted to "
+             "'the items that lie on a cycle', one computed without the pairs cannot respect them")
+def r5(ctx):
+    m = ctx.index.module(TOPO)
+    public = ctx.ev.module_value(m, "__all__")
+    ctx.require(isinstance(public, (list, tuple)) and public, "util/topological.py: __all__ not readable")
+    for name in public:
+        f = ctx.func(f"{TOPO}::{name}")
+        ctx.functions_analysed.add(f.key)
+        a = f.node.args
+        for arg in a.posonlyargs + a.args + a.kwonlyargs:
+            key = f"{f.key}:parameter-read({arg.arg})"
+            reads = [n for st in f.node.body for n in ast.walk(st)
+                     if isinstance(n, ast.Name) and n.id == arg.arg and isinstance(n.ctx, ast.Load)]
+            why = UNUSED_BY_CONTRACT.get((f.key, arg.arg))
+            if why is not None:
+                ctx.ok(key, f"ignored by contract: {why}", nontrivial=False)
+                continue
+            ctx.check(bool(reads), key,
+                      f"{name}() never reads its parameter `{arg.arg}`: the result is the same whatever is passed, so it "
+                      f"cannot be confined to / take account of `{arg.arg}` (e.g. cycles among objects that are not in the "
+                      f"item collection are reported as if they were items)",
+                      f"`{arg.arg}` read {len(reads)} time(s)", f.loc)
+
+
 # ---------------------------------------------------------------------- self-test battery
 # R1
 R.mutant("todo-from-set", TOPO,
@@ -683,6 +718,23 @@ R.mutant("benign-find-cycles-materialises-then-second-pass", TOPO,
 R.mutant("benign-find-cycles-identity-test", TOPO,
          sub("    for parent, child in tuples:\n        edges[parent].add(child)\n    nodes_to_test = set(edges)\n",
              "    if tuples is None:\n        return set()\n    for parent, child in tuples:\n        edges[parent].add(child)\n    nodes_to_test = set(edges)\n"), None)
+# R5
+def _sort_ignores_pairs(src: str) -> str:
+    from ..report import MutantNotApplicable
+    edits = [("    for parent, child in tuples:\n        edges[child].add(parent)\n", "    for parent, child in ():\n        edges[child].add(parent)\n"),
+             ("                find_cycles(tuples, allitems),\n", "                find_cycles(_gen_edges(edges), allitems),\n")]
+    for old, new in edits:
+        if src.count(old) != 1:
+            raise MutantNotApplicable("anchor text not found")
+        src = src.replace(old, new)
+    return src
+
+
+R.mutant("sort-as-subsets-ignores-dependency-pairs", TOPO, _sort_ignores_pairs, "C19-R5")
+R.mutant("sort-ignores-items", TOPO,
+         sub("    for set_ in sort_as_subsets(tuples, allitems):\n", "    for set_ in sort_as_subsets(tuples, [x for pair in tuples for x in pair]):\n"), "C19-R5")
+R.mutant("benign-find-cycles-docstring", TOPO,
+         sub("    # adapted from:\n", "    # (pairs whose members are not items are ignored)\n    # adapted from:\n"), None)
 # R3
 R.mutant("uow-unsorted-actions", "orm/unitofwork.py",
          sub("        postsort_actions = sorted(\n            postsort_actions,\n            key=lambda item: item.sort_key,\n        )\n",
